@@ -747,9 +747,37 @@ fn gen_c16(seed: u64, tier: Tier) -> Scenario {
             ops.insert(at, Op::Bad { call: BadCall::ForeignUnwind { seed: rng.next() as u32 }, path: Path::PartialInto });
         }
     }
+    if !flush && rng.chance(0.3) && !ops.is_empty() {
+        // rejected calls are forwarded unchanged too: the twin makes the same malformed call through the other
+        // trait (Resampler <-> VecResampler object)
+        for _ in 0..rng.usize_in(1, 3) {
+            let at = rng.usize_in(0, ops.len() - 1);
+            let b = gen_bad_op(&mut rng, &sc.config);
+            if !matches!(b, Op::Bad { call: BadCall::ForeignUnwind { .. }, .. }) {
+                ops.insert(at, b);
+            }
+        }
+    }
     let mut idx = Vec::new();
     let mut paths = Vec::new();
     for (i, op) in ops.iter().enumerate() {
+        if let Op::Bad { path, call } = op {
+            if matches!(call, BadCall::ForeignUnwind { .. }) {
+                continue;
+            }
+            let alt = match path {
+                Path::IntoBuffer => Path::VecIntoBuffer,
+                Path::VecIntoBuffer => Path::IntoBuffer,
+                Path::Wrapper => Path::VecWrapper,
+                Path::VecWrapper => Path::Wrapper,
+                Path::PartialInto => Path::VecPartialInto,
+                Path::VecPartialInto => Path::PartialInto,
+                Path::PartialWrapper => Path::VecPartialWrapper,
+                Path::VecPartialWrapper => Path::PartialWrapper,
+            };
+            idx.push(i);
+            paths.push(alt);
+        }
         if let Op::Process { path, .. } = op {
             // twin takes another entry path for the same data
             let mut alt = *rng.pick(&ALL_PATHS);
@@ -782,6 +810,9 @@ fn eval_c16(sc: &Scenario) -> Outcome {
     let mut ops_b = sc.ops.clone();
     for (i, p) in idx.iter().zip(paths.iter()) {
         if let Some(Op::Process { path, .. }) = ops_b.get_mut(*i) {
+            *path = *p;
+        }
+        if let Some(Op::Bad { path, .. }) = ops_b.get_mut(*i) {
             *path = *p;
         }
     }
